@@ -146,6 +146,11 @@ class Gen:
 
     def resize_op(self, t, prefix):
         r = self.rng
+        if getattr(self, 'use_workers', False):
+            # with helper threads a rebuild places elements in a nondeterministic order; worker scripts
+            # keep to doubling + migration (whose result does not depend on the order)
+            self.emit(t, '%s %d' % ('l.find' if prefix else 'find', self.k()) + (' 0' if prefix else ''))
+            return
         if r.random() < 0.5:
             self.emit(t, '%srehash %d' % (prefix, r.choice([0, 1, 2, 2, 3, 3, 4, 5, 6])))
         else:
@@ -178,7 +183,7 @@ class Gen:
             elif m not in ('5 4', '-1 2', '2 1'):
                 self.mlf_small = False
         else:
-            self.emit(t, 'workers 0')
+            self.emit(t, 'workers %d' % (self.rng.choice([1, 2, 3]) if getattr(self, 'use_workers', False) else 0))
 
     def locked_op(self, t):
         r = self.rng
@@ -238,6 +243,8 @@ class Gen:
         # protect the run against unbounded doubling: a hashpower limit is always in force
         self.emit(0, 'mhp %d' % r.choice([6, 7, 8, 9]))
         self.mhp_none = False
+        if getattr(self, 'use_workers', False):
+            self.emit(0, 'workers %d' % r.choice([1, 2, 2, 3, 4]))
         n = 0
         while n < self.nops:
             n += 1
@@ -509,6 +516,13 @@ def gen_script(seed, cfg, **kw):
         g.poison = True
         return g.generate()
     prof = kw.get('profile')
+    if prof == 'workers':
+        kw = dict(kw); kw.pop('profile')
+        g = Gen(rng, cfg, profile=rng.choice(['grow', 'locked', 'mixed', 'churn']), **kw)
+        # helper threads only with trivially copyable nothrow element types (the instrumented registry is
+        # single-threaded, and non-nothrow types grow by rebuild)
+        g.use_workers = (cfg['simple'] == 1)
+        return g.generate()
     if prof in ('special', 'stream'):
         kw = dict(kw); kw.pop('profile')
         return SpecialGen(rng, cfg, stream=(prof == 'stream'), **kw).generate()
